@@ -1,8 +1,9 @@
 (* Property C03 -- a load returns what the source holds: extension order, defaults, errors.
    Statements only. *)
-From Coq Require Import List String NArith Bool.
+From Coq Require Import List String NArith ZArith Bool.
 From AM Require Import Rust.Ast Rust.Eval Gen.Error Gen.Asset Gen.Key Ref.Load Proofs.Load
-  Tie.Error Tie.LoadFromSource Gen.Flags Tie.Dirs.
+  Tie.Error Tie.LoadFromSource Gen.Flags Tie.Dirs Gen.Loaders Tie.Loaders.
+From AM Require Ref.Utf8 Ref.Loaders Proofs.Loaders.
 Import ListNotations.
 Open Scope N_scope.
 
@@ -63,3 +64,48 @@ Proof. intros V. exact (@empty_extension_list V). Qed.
    one (files without extension) included *)
 Theorem C03_code_default_extension_list : defaults_wf = true.
 Proof. exact trait_defaults. Qed.
+
+(* ---- the built-in loaders ---- *)
+(* their code: ParseLoader = from_utf8, str::trim, parse; StringLoader = from_utf8 keeping the bytes;
+   BytesLoader hands the content on; LoadFrom converts the inner loader's result *)
+Theorem C03_code_builtin_loaders_as_modelled :
+  parse_loader_wf ParseLoader_load = true /\ load_from_wf LoadFrom_load = true /\
+  hands_on "into_owned" BytesLoader_load_vec = true /\ hands_on "into" BytesLoader_load_box = true /\
+  hands_on "into" BytesLoader_load_shared = true /\
+  string_wf StringLoader_load_string = true /\ boxed_str_wf StringLoader_load_box = true /\
+  shared_str_wf StringLoader_load_shared = true.
+Proof. exact loaders_as_modelled. Qed.
+
+(* white space around the content -- any number of any Unicode White_Space characters -- never changes
+   what ParseLoader answers *)
+Theorem C03_parse_loader_ignores_surrounding_whitespace : forall a cs b,
+  forallb Utf8.scalar (a ++ cs ++ b) = true ->
+  forallb Loaders.white_space a = true -> forallb Loaders.white_space b = true ->
+  Loaders.parse_loader (Utf8.encode (a ++ cs ++ b)) = Loaders.parse_loader (Utf8.encode cs).
+Proof. exact Proofs.Loaders.parse_loader_ignores_surrounding_whitespace. Qed.
+
+(* ... and trimming removes nothing else: what is left begins and ends with a character that is not
+   white space *)
+Theorem C03_trim_removes_exactly_the_surrounding_whitespace : forall cs,
+  match Loaders.trim cs with
+  | [] => True
+  | c :: _ => Loaders.white_space c = false /\ Loaders.white_space (last (Loaders.trim cs) 0%N) = false
+  end.
+Proof. exact Proofs.Loaders.trim_ends. Qed.
+
+Theorem C03_parse_loader_rejects_ill_formed_utf8 : forall bytes,
+  Utf8.valid bytes = false -> Loaders.parse_loader bytes = None.
+Proof. exact Proofs.Loaders.parse_loader_rejects_ill_formed_utf8. Qed.
+
+Theorem C03_parse_loader_stays_in_range : forall cs z,
+  Loaders.parse_i64 cs = Some z -> (Loaders.i64_min <= z)%Z /\ (z <= Loaders.i64_max)%Z.
+Proof. exact Proofs.Loaders.parse_i64_in_range. Qed.
+
+Theorem C03_string_loader_keeps_the_bytes : forall bytes s,
+  Loaders.string_loader bytes = Some s -> s = bytes /\ Utf8.valid bytes = true.
+Proof. exact Proofs.Loaders.string_loader_keeps_the_bytes. Qed.
+
+Example C03_loaders_nonvacuous :
+  Loaders.parse_loader (Utf8.encode [160; 8195; 45; 52; 50; 10; 12288]%N) = Some (-42)%Z /\
+  Loaders.parse_loader (Utf8.encode [52; 50; 8203]%N) = None.
+Proof. vm_compute. split; reflexivity. Qed.
